@@ -374,9 +374,19 @@ def pad(a, pad_width, mode="constant", constant_values=0, **k):
     if mode != "constant":
         raise UnsupportedSymbolicOp(f"pad mode {mode}")
     a = asanyarray(a)
+    cv = constant_values
+    if isinstance(cv, (SymArray, _np.ndarray)) and getattr(cv, "ndim", 0) == 0:
+        cv = cv[()]
+    if isinstance(cv, _np.generic):
+        cv = cv.item()
+    if isinstance(cv, (bytes, str)) and len(cv) == 1:
+        cv = ord(cv)
+    if not isinstance(cv, (int, bool, SV)):
+        raise UnsupportedSymbolicOp(f"pad with constant_values of type {type(cv).__name__}")
     out = _np.pad(a.vals, pad_width, mode="constant", constant_values=0)
-    if constant_values != 0:
-        raise UnsupportedSymbolicOp("pad with non-zero constant")
+    mask = _np.pad(_np.zeros(a.vals.shape, dtype=bool), pad_width, mode="constant", constant_values=True)
+    out = out.copy()
+    out[mask] = cv
     return SymArray(out, a.dtype)
 
 
@@ -695,12 +705,33 @@ def _insertion_order(n, gt):
     return idx
 
 
-@sym_or_real("argsort")
-def argsort(a, axis=-1, kind=None, **k):
+def _argsort_stable(a):
     v = obj(a)
     if v.ndim != 1:
         raise UnsupportedSymbolicOp("argsort n-d")
     idx = _insertion_order(len(v), lambda i, j: S_gt(v[i], v[j]))
+    return v, idx
+
+
+@sym_or_real("argsort")
+def argsort(a, axis=-1, kind=None, **k):
+    v, idx = _argsort_stable(a)
+    n = len(idx)
+    if kind in (None, "quicksort", "heapsort") and n > 1:
+        # NumPy's default sort is not stable: where equal keys end up is whatever the installed routine does for this order
+        # pattern.  Decide the ties between neighbours of the sorted order (forks only where equality is feasible) and let the
+        # real routine sort a concrete array with the same weak order, dtype and kind.
+        ranks = [0]
+        for p in range(1, n):
+            tie = _b.bool(S_eq(v[idx[p]], v[idx[p - 1]]))
+            ranks.append(ranks[-1] + (0 if tie else 1))
+        if ranks[-1] < n - 1:
+            dt = getattr(a, "dtype", None)
+            dt = dt if dt is not None and _np.dtype(dt).kind in "iuf" else _np.dtype(_np.int64)
+            conc = _np.empty(n, dtype=dt)
+            for p in range(n):
+                conc[idx[p]] = ranks[p]
+            return wrap_real(_np.argsort(conc, kind=kind).astype(_np.int64))
     return wrap_real(_np.array(idx, dtype=_np.int64))
 
 
@@ -709,7 +740,7 @@ def sort(a, axis=-1, kind=None, **k):
     a = asanyarray(a)
     if a.ndim != 1:
         raise UnsupportedSymbolicOp("sort n-d")
-    return a[argsort(a)]
+    return a[wrap_real(_np.array(_argsort_stable(a)[1], dtype=_np.int64))]       # equal keys are indistinguishable in the values
 
 
 @sym_or_real("lexsort")
@@ -753,7 +784,7 @@ def searchsorted(a, v, side="left", sorter=None):
 @sym_or_real("unique")
 def unique(a, return_index=False, return_inverse=False, return_counts=False, **k):
     a = asanyarray(a).ravel()
-    order = argsort(a)
+    order = wrap_real(_np.array(_argsort_stable(a)[1], dtype=_np.int64))   # np.unique sorts stably when it reports indices
     s = a[order]
     n = len(s)
     keep = [True] + [bool(S_ne(s.vals[i], s.vals[i - 1])) for i in range(1, n)]   # forks
